@@ -162,7 +162,7 @@ class PTable(EngineBase):
             return {"ev": "setattr", "pid": pid, "attrs": {
                 "comm": rng.choice(gen.COMMS),
                 "cmdline": "/bin/other\x00"}}
-        if prop == "C02" and r < 0.97:
+        if prop in ("C02", "C05") and r < 0.97:
             # exit + reap with /proc/<pid> lingering for a moment (every
             # file below it already ENOENT; issue 2418), gone soon after
             return {"ev": "halfgone", "pid": pid}
@@ -1453,7 +1453,13 @@ class PTable(EngineBase):
         if out[0] == "exc":
             cls = exc_class(psutil, out[1])
             if cls not in ("NSP", "ZP", "AD"):
-                self._V(st, "C05.exception", [cls], api, "%s raised %r" % (
+                respawn = any(
+                    pre.get(pid_, (None,))[0] != v_[0]
+                    for s_ in snaps_during + [post]
+                    for pid_, v_ in s_.items())
+                self._V(st, "C05.exception", [cls, (
+                    "pid_respawned_during_call" if respawn else
+                    "no_respawn_during_call")], api, "%s raised %r" % (
                     api, out[1]))
             elif cls == "NSP" and not gone and not moving:
                 self._V(st, "C05.spurious_nsp", tags, api, "%s raised %r for "
